@@ -187,6 +187,30 @@ Proof.
 Qed.
 Print Assumptions hp_plist_in_bounds.
 
+(* the comparator obligation behind [good_sort]: hazard_pointer_scan needs
+   sign (hazard_pointer_compare a b) = order of a, b as unsigned 64-bit values
+   ([cmp_total_order]; reflexive/antisymmetric, transitive, total).  Any sort
+   driven by such a comparator on the nodes' addresses is a good_sort.  The
+   model's comparator cmp64 satisfies it; the C function is tied to cmp64 by
+   the differential mode K = -1 of rt/h_hazard.c (boundary and random address
+   pairs, also >= 2^31 apart) and end to end by the far-apart node layout. *)
+Theorem hp_comparator_obligation :
+  cmp_total_order cmp64 /\
+  (forall cmp, cmp_total_order cmp ->
+     forall a b c, (0 <= a < 2 ^ 64)%Z -> (0 <= b < 2 ^ 64)%Z -> (0 <= c < 2 ^ 64)%Z ->
+     (Z.sgn (cmp a b) = 0%Z <-> a = b) /\ Z.sgn (cmp a b) = (- Z.sgn (cmp b a))%Z /\
+     ((cmp a b <= 0)%Z -> (cmp b c <= 0)%Z -> (cmp a c <= 0)%Z) /\
+     ((cmp a b <= 0)%Z \/ (cmp b a <= 0)%Z)) /\
+  (forall cmp, cmp_total_order cmp -> forall addr, (forall x, (0 <= addr x < 2 ^ 64)%Z) ->
+     (forall x y, x < y -> (addr x < addr y)%Z) -> good_sort (csort cmp addr)).
+Proof. split; [exact cmp64_ok|split; [exact cmp_order_props|exact csort_good]]. Qed.
+Print Assumptions hp_comparator_obligation.
+
+(* a comparator that returns the 64-bit difference truncated to int violates it *)
+Theorem hp_truncating_compare_refuted : ~ cmp_total_order trunc_cmp.
+Proof. exact trunc_cmp_not_ok. Qed.
+Print Assumptions hp_truncating_compare_refuted.
+
 (* ---- non-vacuity: the hypotheses are met by concrete reachable states ---- *)
 Definition exA := [[OProtect 0 0; OUse 0]; [OSwap 0; OSwap 0; OScan]].
 Definition stA sch := fst (run_sched (M isort) (init 1 2 1 4 exA) sch).
